@@ -130,7 +130,7 @@ class Target:
             return TInt(self.long_bits, signed, name)
         if w == ["long", "long"]:
             return TInt(64, signed, name)
-        if w == ["_Bool"]:
+        if w in (["_Bool"], ["bool"]):
             return TInt(8, False, "_Bool", is_bool=True)
         raise Unsupported("base type %r" % name)
 
@@ -138,7 +138,7 @@ class Target:
 ARM = Target("arm-none-eabi", 32, 32, False)       # AAPCS: plain char is unsigned
 HOST = Target("x86_64-linux-gnu", 64, 64, True)
 
-_BASEWORDS = {"char", "short", "int", "long", "unsigned", "signed", "_Bool"}
+_BASEWORDS = {"char", "short", "int", "long", "unsigned", "signed", "_Bool", "bool"}
 _QUALS = {"const", "volatile", "restrict", "__restrict", "register"}
 
 
@@ -164,6 +164,12 @@ class TypeTable:
     # qualType grammar handled: [quals] base [quals] {'*' [quals]} [ '(' '*' ')' '(' params ')' ] | base '(' params ')' | ... '[' n ']'
     def _parse(self, s):
         s = s.strip()
+        # typeof(((T *)0)->member): the container_of idiom of linuxlist.h
+        m = re.match(r"^((?:const |volatile )*)typeof \(\(\(((?:struct|union) \w+) \*\)0\)->(\w+)\)(.*)$", s)
+        if m:
+            rec = self.parse(m.group(2))
+            base = rec.rec.field(m.group(3)).ctype
+            return self._suffix(base, m.group(4).strip(), s)
         # anonymous records carry a location in parentheses: take the whole thing as a base token
         m = re.match(r"^((?:const |volatile )*)((?:struct|union|enum) (?:[\w:]+::)?\((?:unnamed|anonymous)[^)]*\))(.*)$", s)
         if m:
